@@ -247,7 +247,18 @@ def base_fields(nrows, ncols):
             snake.append(16 if k > 0 else 4)
     last = (nrows - 1) * ncols + ((ncols - 1) if (nrows - 1) % 2 == 0 else 0)
     snake[last] = 0
-    return {"east": east, "converge": conv, "snake": snake}
+    # pit: every cell flows towards the central cell (a sink that receives from all its neighbours)
+    pr, pk = nrows // 2, ncols // 2
+    pit = []
+    for c in range(ntot):
+        r, k = divmod(c, ncols)
+        dr = (pr > r) - (pr < r)
+        dk = (pk > k) - (pk < k)
+        if dr == 0 and dk == 0:
+            pit.append(0)
+        else:
+            pit.append([code for code, d in ESRI.items() if d == (dr, dk)][0])
+    return {"east": east, "converge": conv, "snake": snake, "pit": pit}
 
 
 def deviation_grids(nrows, ncols, basename, maxdev, seed):
